@@ -180,12 +180,14 @@ def drivePure : List String → Option String
         pure ({ wrapped := wrapped, dfltSer := dflt.map (c.serialize pr), name := name, ser := c.serialize pr v } : Spec)
       | _ => none)
     pure (enc (closeText items))
-  | ["ns_ser", name, chunks] => do
+  | ["ns_ser", name, escaped] => do
     let name ← dec name
-    let chunks ← decList chunks
-    pure (match nsSerialize name chunks with
-      | some t => "ok\t" ++ enc t
-      | none => "raise")
+    let escaped ← dec escaped
+    pure (enc (nsSerialize name escaped))
+  | ["wrap", w, text] => do
+    let w ← w.toNat?
+    let text ← dec text
+    pure (encList (wrapText w text))
   | ["cache", l] => (decPairs l).map fun l => encPairs (cacheOf l)
   | ["esc", n] => (dec n).map fun n => enc (escapeName n)
   | ["unesc", n] => (dec n).map fun n => encRes (unescapeName n)
